@@ -80,9 +80,9 @@ pub fn mmode(sh: &Shared, m: &Mode) -> Result<MMode, OpErr> {
 pub fn fresh_hasher(m: &MMode) -> blake3::Hasher {
     match m {
         MMode::Hash => blake3::Hasher::new(),
-        MMode::Keyed(k) => blake3::Hasher::new_keyed(k),
-        MMode::Derive(c) => blake3::Hasher::new_derive_key(std::str::from_utf8(c).unwrap()),
-        MMode::ContextKey(k) => blake3::Hasher::new_from_context_key(k),
+        MMode::Keyed(k) => crate::stable::with_key(0, k, |k| blake3::Hasher::new_keyed(k)),
+        MMode::Derive(c) => crate::stable::with_ctx(std::str::from_utf8(c).unwrap(), |c| blake3::Hasher::new_derive_key(c)),
+        MMode::ContextKey(k) => crate::stable::with_key(0, k, |k| blake3::Hasher::new_from_context_key(k)),
     }
 }
 
@@ -996,9 +996,9 @@ pub fn do_op(sh: &Arc<Shared>, local: &mut TaskLocal, op: &Op) -> OpResult {
             let m = mmode(sh, mode)?;
             let got: [u8; 32] = match &m {
                 MMode::Hash => *blake3::hash(bytes).as_bytes(),
-                MMode::Keyed(k) => *blake3::keyed_hash(k, bytes).as_bytes(),
-                MMode::Derive(c) => blake3::derive_key(std::str::from_utf8(c).unwrap(), bytes),
-                MMode::ContextKey(k) => *blake3::Hasher::new_from_context_key(k).update(bytes).finalize().as_bytes(),
+                MMode::Keyed(k) => crate::stable::with_key(0, k, |k| *blake3::keyed_hash(k, bytes).as_bytes()),
+                MMode::Derive(c) => crate::stable::with_ctx(std::str::from_utf8(c).unwrap(), |c| blake3::derive_key(c, bytes)),
+                MMode::ContextKey(k) => crate::stable::with_key(0, k, |k| *blake3::Hasher::new_from_context_key(k).update(bytes).finalize().as_bytes()),
             };
             if sh.plan.cfg.model_oracle {
                 let want = m.root(bytes).root_hash();
@@ -1028,8 +1028,10 @@ pub fn do_op(sh: &Arc<Shared>, local: &mut TaskLocal, op: &Op) -> OpResult {
         | Op::ParseMutations { .. }
         | Op::ParseLine { .. }
         | Op::FileKinds { .. }
+        | Op::HugeFile { .. }
+        | Op::CliSpecial { .. }
         | Op::SysFault { .. } => crate::cli::do_cli(sh, local, op),
-        Op::CInit { .. } | Op::CUpdate { .. } | Op::CFinalize { .. } | Op::CFinalizeHuge { .. } | Op::CReset { .. } | Op::CCopy { .. } | Op::CSetMask { .. } => {
+        Op::CInit { .. } | Op::CUpdate { .. } | Op::CFinalize { .. } | Op::CFinalizeHuge { .. } | Op::CUpdateHuge { .. } | Op::CReset { .. } | Op::CCopy { .. } | Op::CSetMask { .. } => {
             crate::cnode::do_cop(sh, local, op)
         }
     }
@@ -1057,12 +1059,14 @@ fn via_tag(v: &AbsorbVia) -> u64 {
         AbsorbVia::IoCopy(_) => 3,
         AbsorbVia::Reader(_) => 4,
         AbsorbVia::ReaderDyn(_) => 5,
+        AbsorbVia::ReaderRetry(_) => 21,
         AbsorbVia::Rayon { .. } => 6,
         AbsorbVia::SimJoin(_) => 7,
         AbsorbVia::Mmap => 8,
         AbsorbVia::MmapRayon => 9,
         AbsorbVia::ReaderFile => 10,
         AbsorbVia::SharedFile { how } => 14 + *how as u64 % 3,
+        AbsorbVia::PathError { how } => 17 + *how as u64 % 4,
         AbsorbVia::TraitUpdate => 11,
         AbsorbVia::MacUpdate => 12,
         AbsorbVia::DigestUpdate => 13,
@@ -1155,6 +1159,29 @@ fn absorb(sh: &Arc<Shared>, hs: &mut HSlot, bytes: &[u8], via: &AbsorbVia) -> Op
             all(hs);
             Ok(5)
         }
+        AbsorbVia::ReaderRetry(script) => {
+            let mut rd = SimReader::new(sh, bytes, script);
+            let res = hs.h.update_reader(&mut rd).map(|_| 0);
+            let yielded = rd.pos;
+            hs.absorbed.extend_from_slice(&bytes[..yielded]);
+            twin_update(hs, &bytes[..yielded]);
+            let r1 = judge_reader(res, &rd, false)?;
+            if yielded < bytes.len() {
+                sh.probe("reader_retry_after_early_stop");
+                let rest = &bytes[yielded..];
+                let clean = ReaderScript { steps: vec![], junk: false, tail_chunk: 0 };
+                let mut rd2 = SimReader::new(sh, rest, &clean);
+                let res2 = hs.h.update_reader(&mut rd2).map(|_| 0);
+                let y2 = rd2.pos;
+                hs.absorbed.extend_from_slice(&rest[..y2]);
+                twin_update(hs, &rest[..y2]);
+                judge_reader(res2, &rd2, false)?;
+                if y2 != rest.len() {
+                    return viol("result-mismatch", format!("retry after an early stop: a well-behaved reader over {} bytes was read only up to {}", rest.len(), y2));
+                }
+            }
+            Ok(r1 ^ 0x7e7)
+        }
         AbsorbVia::Reader(script) | AbsorbVia::ReaderDyn(script) | AbsorbVia::IoCopy(script) => {
             let mut rd = SimReader::new(sh, bytes, script);
             let (res, reports_total): (std::io::Result<u64>, bool) = match via {
@@ -1175,6 +1202,23 @@ fn absorb(sh: &Arc<Shared>, hs: &mut HSlot, bytes: &[u8], via: &AbsorbVia) -> Op
                 sh.probe("reader_hard_error_surfaced");
             }
             judge_reader(res, &rd, reports_total)
+        }
+        AbsorbVia::PathError { how } => {
+            let dir = sh.scratch_dir()?;
+            let p = if how % 4 < 2 { dir.join("no-such-file") } else { dir.clone() };
+            let res: std::io::Result<()> = if how % 2 == 0 {
+                hs.h.update_mmap(&p).map(|_| ())
+            } else {
+                let pool = rayon_pool(2);
+                let h = &mut hs.h;
+                pool.install(|| h.update_mmap_rayon(&p).map(|_| ()))
+            };
+            if res.is_ok() {
+                return viol("result-mismatch", format!("hashing {} by path succeeded", if how % 4 < 2 { "a missing file" } else { "a directory" }));
+            }
+            sh.fault(if how % 4 < 2 { "path_missing" } else { "path_is_directory" });
+            // nothing was absorbed: count() is compared by the caller, every later result by its own oracle
+            Ok(8)
         }
         AbsorbVia::SharedFile { how } => {
             let p = sh.scratch_dir()?.join(format!("shared-{:016x}-{}", Fnv::of(bytes), bytes.len()));
@@ -1222,7 +1266,8 @@ fn absorb(sh: &Arc<Shared>, hs: &mut HSlot, bytes: &[u8], via: &AbsorbVia) -> Op
             let res: std::io::Result<()> = match via {
                 AbsorbVia::Mmap => hs.h.update_mmap(&p).map(|_| ()),
                 AbsorbVia::MmapRayon => {
-                    let pool = rayon_pool(4);
+                    // pools of 1, 2 and 4 threads (a function of the plan)
+                    let pool = rayon_pool([1u8, 2, 4][bytes.len() % 3]);
                     let h = &mut hs.h;
                     pool.install(|| h.update_mmap_rayon(&p).map(|_| ()))
                 }
